@@ -107,17 +107,18 @@ def run(ck):
     if not quick:
         ck.mc("MC_Montgomery", "MC_Montgomery_101.cfg", note="p=101", workers=8)
         ck.mc("MC_Montgomery", "MC_Montgomery_109.cfg", note="p=109", workers=8)
+    # ".nz": the three crates built WITHOUT their zeroize feature (the ladder has a cfg(feature = "zeroize") site in its body)
     if quick:
-        specs = [("s64", True), ("v2", True), ("s64", False)]
+        specs = [("s64", True, ()), ("v2", True, ()), ("s64", False, ()), ("s64", True, ("nz",))]
     else:
-        specs = [(b, t) for b in ALL_BACKENDS for t in (True, False)]
-    bins = build_many([(b, t, "release", ()) for b, t in specs], jobs=3)
+        specs = [(b, t, ()) for b in ALL_BACKENDS for t in (True, False)] + [("s64", True, ("nz",)), ("s32", False, ("nz",)), ("v2", True, ("nz",))]
+    bins = build_many([(b, t, "release", f) for b, t, f in specs], jobs=3)
     ops = gen(ck.rng, quick)
     sp = os.path.join(ck.workdir, "script.ndjson")
     write_script(sp, ops)
     traces = []
-    for b, t in specs:
-        cid = cfg_id(b, t)
+    for b, t, f in specs:
+        cid = cfg_id(b, t, "release", f)
         tp = os.path.join(ck.workdir, cid + ".trace.ndjson")
         run_driver(bins[cid], cid, sp, tp)
         traces.append((cid, tp))
